@@ -12,6 +12,7 @@ inductive Cond where
   | isTrue             -- it is the value `true`
   | nonEmpty           -- it is a non-empty list value
   | eq (j : Json)      -- it is exactly this value (type-exact)
+  | argEq (j : Json)   -- the function's first argument is exactly this value
 deriving Inhabited
 
 inductive Stmt where
@@ -71,6 +72,7 @@ def entryV (v : Json) : Json := .arr [.str "v", v]
 def entryE (cls : String) : Json := .arr [.str "e", .str cls]
 
 def evalCond (c : Cond) (acc : List Json) : Bool :=
+  if let .argEq j := c then (match acc.head? with | some a => render a == render (entryV j) | none => false) else
   match acc.getLast? with
   | none => false
   | some last =>
@@ -82,6 +84,7 @@ def evalCond (c : Cond) (acc : List Json) : Bool :=
         | .arr [.str "v", .tup (_ :: _)] => true
         | _ => false
     | .eq j => render last == render (entryV j)
+    | .argEq _ => false
 
 def retOf (f : Func) (acc : List Json) : Prog :=
   match f.ret with
@@ -97,6 +100,25 @@ def queryK (acc : List Json) (k : List Json → Prog) : UAns → Prog
   | .ok v => k (acc ++ [entryV v])
   | .error e => k (acc ++ [entryE e.name])
 
+mutual
+/-- canonical form in which function bodies see their arguments and version: JSON-equal values look
+    alike (the documented obligation: results may not depend on more than the JSON value) -/
+def canon : Json → Json
+  | .num n => match n.key with
+    | .inl (i, 0) => .num (.int i)
+    | _ => .num n
+  | .arr xs => .arr (canonL xs)
+  | .tup xs => .arr (canonL xs)
+  | .obj kvs => .obj (sortKeys (canonO kvs))
+  | j => j
+def canonL : List Json → List Json
+  | [] => []
+  | x :: xs => canon x :: canonL xs
+def canonO : List (String × Json) → List (String × Json)
+  | [] => []
+  | (k, v) :: r => (k, canon v) :: canonO r
+end
+
 def firstOf : Json → Json
   | .arr (x :: _) => x
   | _ => .null
@@ -106,7 +128,7 @@ mutual
 def denoteFunc (ver : String → Json) (fuel : Nat) (fs : Array Func) (idx : Nat) (arg : Json) (kw : Json) : Prog :=
   match fs[idx]? with
   | none => .raise (.internal "no such function")
-  | some f => goStmts ver fuel fs f.stmts [entryV arg, entryV kw, entryV (ver f.name)] (retOf f)
+  | some f => goStmts ver fuel fs f.stmts [entryV (canon arg), entryV (canon kw), entryV (canon (ver f.name))] (retOf f)
 termination_by (fuel, 1, 0)
 def goStmts (ver : String → Json) (fuel : Nat) (fs : Array Func) (ss : List Stmt) (acc : List Json)
     (k : List Json → Prog) : Prog :=
